@@ -188,6 +188,13 @@ func (p List) primitiveElem(i int, expectedSize ObjectSize) (address, error) {
 	if !ok {
 		return 0, errorf("read list element %d: address overflow", i)
 	}
+	if expectedSize.PointerCount > 0 {
+		// The first pointer of a struct element comes after its data section.
+		addr, ok = addr.addSize(p.size.DataSize)
+		if !ok {
+			return 0, errorf("read list element %d: address overflow", i)
+		}
+	}
 	return addr, nil
 }
 
